@@ -41,7 +41,41 @@ theorem history_independent_of_inv {σ κ ο : Type} (step : σ → κ → σ ×
   rw [lastOut_append, lastOut_single]
   exact congrArg some (hout _ c (inv_run step Inv hstep s0 h0 h))
 
+/-- history independence of two objects side by side follows from that of each -/
+theorem history_independent_prod_of_inv {σ τ κ κ' ο ο' : Type} (sa : σ → κ → σ × ο) (sb : τ → κ' → τ × ο')
+    (IA : σ → Prop) (IB : τ → Prop) (a0 : σ) (b0 : τ) (ha0 : IA a0) (hb0 : IB b0)
+    (hsa : ∀ s c, IA s → IA (sa s c).1) (hsb : ∀ s c, IB s → IB (sb s c).1)
+    (hoa : ∀ s c, IA s → (sa s c).2 = (sa a0 c).2) (hob : ∀ s c, IB s → (sb s c).2 = (sb b0 c).2)
+    (h : List (κ ⊕ κ')) (c : κ ⊕ κ') :
+    lastOut (prodStep sa sb) (a0, b0) (h ++ [c]) = lastOut (prodStep sa sb) (a0, b0) [c] := by
+  apply history_independent_of_inv (prodStep sa sb) (fun p => IA p.1 ∧ IB p.2) (a0, b0) ⟨ha0, hb0⟩
+  · rintro ⟨a, b⟩ c ⟨h1, h2⟩
+    cases c with
+    | inl c => exact ⟨hsa a c h1, h2⟩
+    | inr c => exact ⟨h1, hsb b c h2⟩
+  · rintro ⟨a, b⟩ c ⟨h1, h2⟩
+    cases c with
+    | inl c => simp only [prodStep, hoa a c h1]
+    | inr c => simp only [prodStep, hob b c h2]
+
 /-! ### the PAV coefficient cache -/
+
+theorem pavExtend_length (coefs : List Rat) (n : Nat) : (pavExtend coefs n).length = max coefs.length (n + 1) := by
+  unfold pavExtend
+  split
+  · simp; omega
+  · omega
+
+theorem pav_run_length (h : List PavCall) (s : List Rat) :
+    (run pavStep s h).1.length = h.foldl (fun m c => max m (c.nSeats + 1)) s.length := by
+  induction h generalizing s with
+  | nil => rfl
+  | cons c cs ih =>
+    simp only [run, List.foldl_cons]
+    rw [ih]
+    congr 1
+    exact pavExtend_length s c.nSeats
+
 
 /-- the cache invariant: never empty, and entry `k` is the `k`-th harmonic number -/
 def PavInv (coefs : List Rat) : Prop :=
@@ -223,16 +257,16 @@ theorem bordaStep_state (base : Int) (s : BordaState) (votes : RankedProfile) :
 
 /-! ### reseeding generator -/
 
-theorem drawsReseeding_out_indep {G Req Out : Type} (M : RngModel G Req Out) (seed : Nat) (g g' : G)
-    (reqs : List Req) : (drawsReseeding M seed g reqs).2 = (drawsReseeding M seed g' reqs).2 := by
-  cases reqs with
+theorem blocksReseeding_out_indep {G Req Out : Type} (M : RngModel G Req Out) (seed : Nat) (g g' : G)
+    (blocks : List (List Req)) : (blocksReseeding M seed g blocks).2 = (blocksReseeding M seed g' blocks).2 := by
+  cases blocks with
   | nil => rfl
   | cons r rs => rfl
 
 theorem seededStep_out_indep {G Req Out : Type} (M : RngModel G Req Out) (g g' : G) (c : RngCall G Req) :
     (seededStep M g c).2 = (seededStep M g' c).2 := by
   cases c with
-  | seeded seed reqs => exact drawsReseeding_out_indep M seed g g' reqs
+  | seeded seed blocks => exact blocksReseeding_out_indep M seed g g' blocks
   | other f => rfl
 
 /-! ### defaultdict of checkers -/
